@@ -32,8 +32,8 @@ def date_opaque(model):
                 if a.tag == 'err':
                     return a
                 return NotImplemented
-            out[(m.name, 'serialize_date')] = ser
-            out[(m.name, 'parse_date')] = par
+            out[(m.name, m.functions.key_of('serialize_date'))] = ser
+            out[(m.name, m.functions.key_of('parse_date'))] = par
     if not out:
         raise AnalysisError('date converters serialize_date/parse_date not found (anchor vanished)')
     return out
@@ -108,7 +108,7 @@ def cell_opaque(model):
                         if all(isinstance(a, Const) for a in args):
                             return NotImplemented
                         return Atom(name, args, 'int' if name.endswith('to_index') else 'str')
-                    out[(m.name, name)] = summ
+                    out[(m.name, m.functions.key_of(name))] = summ
     return out
 
 
